@@ -19,6 +19,8 @@ import GojaModel.C19.MechThm
 import GojaModel.C19.Utf8Thm
 import GojaModel.C19.QuoteMechThm
 import GojaModel.C19.AllowListWf
+import GojaModel.C19.ReviverMutThm
+import GojaModel.C19.MarshalThm
 
 namespace GojaModel.C19
 
@@ -166,6 +168,16 @@ theorem stringify_mechanism_refines_spec (gap : Str) (v : MVal) (buf ind : Str) 
       | none => (buf, ind, false) :=
   mechOK gap v buf ind
 
+/-- Object.MarshalJSON (value.go:944: `ctx.do(o)`, "null" when `str` returned false) and JSON.stringify run the same
+    mechanism: MarshalJSON's bytes are stringify's text, or "null" where stringify returns undefined … -/
+theorem marshaljson_agrees_with_stringify (v : MVal) :
+    marshalM v = match stringifyM [] v with | some t => t | none => [110, 117, 108, 108] :=
+  marshalM_eq v
+
+/-- … and that text is the specified one -/
+theorem stringify_mechanism_top_level (gap : Str) (v : MVal) : stringifyM gap v = (clean v).map (stringify gap) :=
+  stringifyM_eq gap v
+
 /-- replacer function / toJSON, result substitution: for EVERY pair of hooks (stateful toJSON and replacer function),
     every state, holder, key, value, gap, indent and fuel, serialising with the hooks is plain serialisation of the
     rewritten value — toJSON result, then replacer result, substituted top-down; undefined members dropped, undefined
@@ -213,6 +225,17 @@ theorem reviver_current_value {σ : Type} (R : ReviverM σ) (f : Nat) (s : σ) (
     (h : ∀ xs, rGet holder key ≠ some (.arr xs)) (h' : ∀ ms, rGet holder key ≠ some (.obj ms)) :
     walkM R (f + 1) s holder key = some (R s holder key (rGet holder key)) :=
   walkM_noncontainer R f s holder key h h'
+
+/-- array-index keys are canonical: the decimal text of an index below 2^32 − 1 is recognised as that index -/
+theorem index_key_canonical (n : Nat) (h : n < 4294967295) : idxOf (idxKey n) = some n :=
+  idxOf_idxKey n h
+
+/-- refinement between the two reviver models: for a reviver that never edits its holder, the editing walk
+    (key snapshot, current values, write-back into the holder) gives exactly the state and the result of the stateful
+    walk of Reviver.lean — for every value JSON.parse can build (distinct keys, arrays below 2^32 − 1 elements) -/
+theorem reviver_editing_walk_refines_stateful_walk {σ : Type} (R : ReviverS σ) (v : JVal) (f : Nat) (s : σ)
+    (hf : need v ≤ f) (ht : Tame v) : reviveRootM (liftM R) f s v = some (reviveS R [] v s) :=
+  reviveRootM_lift R v f s hf ht
 
 /-- … for every well-formed value and every list of 16-bit keys, with no further hypothesis -/
 theorem allowlist_roundtrip_wf (items : List Str) (gap : Str) (hg : AllWs gap) (v : JVal) (hv : WfVal v)
